@@ -35,7 +35,8 @@ REQUIRED_FEATURES = ["fault:invalid-record:bin=nbins", "fault:invalid-record:bin
                      "producer:coarsen", "dest:new-file-root", "dest:new-file-nested", "dest:populated-root",
                      "dest:new-group", "dest:existing-empty-group", "dest:existing-noncooler-group", "dest:existing-link-alias",
                      "phase:write_pixels", "phase:create", "phase:write_info", "phase:write_indexes",
-                     "options:metadata", "options:assembly+h5opts", "fault:invalid-record-in-chunk>1e6-rows"]
+                     "options:metadata", "options:assembly+h5opts", "fault:invalid-record-in-chunk>1e6-rows",
+                     "producer:create_from_unordered(direct, defaults)", "producer:zoomify:missing-column"]
 SHARD_TIMEOUT = {"quick": 1800, "thorough": 7200}
 
 DESTS = ["new-file-root", "new-file-nested", "populated-root", "new-group", "existing-empty-group",
@@ -49,6 +50,7 @@ def plan(tier, seed):
           for i in range(n)]
     s += [{"kind": "exit", "sub": i, "cases": 3 if tier == "quick" else 8} for i in range(4 if tier == "quick" else 12)]
     s += [{"kind": "bigchunk", "sub": i, "cases": 1} for i in range(2 if tier == "quick" else 6)]
+    s += [{"kind": "zoomfail", "sub": i, "cases": 6 if tier == "quick" else 30} for i in range(1 if tier == "quick" else 4)]
     return s
 
 
@@ -64,6 +66,8 @@ def run(ctx, shard):
             line_faults(ctx, shard, i, rng)
         elif shard["kind"] == "bigchunk":
             big_chunk_faults(ctx, shard, rng)
+        elif shard["kind"] == "zoomfail":
+            zoomify_faults(ctx, shard, i, rng)
         else:
             exit_faults(ctx, shard, i, rng)
 
@@ -265,7 +269,14 @@ def input_faults(ctx, shard, i, rng):
                 kw["h5opts"] = {"compression": "lzf"}
                 c.feature("options:assembly+h5opts")
             try:
-                cooler.create_cooler(env.uri, bins, it(), **kw)
+                if unordered and symm and x % 4 == 3:
+                    # the lower-level public entry point, every option at its default (symmetric-upper storage)
+                    from cooler.create import create_from_unordered
+                    kw2 = {k_: v_ for k_, v_ in kw.items() if k_ not in ("symmetric_upper", "ordered")}
+                    c.feature("producer:create_from_unordered(direct, defaults)")
+                    create_from_unordered(env.uri, bins, it(), **kw2)
+                else:
+                    cooler.create_cooler(env.uri, bins, it(), **kw)
             except BadInputError as e:
                 raised = "BadInputError"
             except RuntimeError as e:
@@ -528,3 +539,45 @@ def big_chunk_faults(ctx, shard, rng):
                     f"(outcome: {raised})")
             env.verify(c, f"invalid:{kind}:chunk>1e6-rows")
             c.nontrivial("bigchunk", kind, at, src, unordered)
+
+
+def zoomify_faults(ctx, shard, i, rng):
+    """zoomify_cooler / `cooler zoomify` copies its base level table by table: a request that fails during that copy
+    (a value column the base does not have) must not leave anything recognised as a cooler in the output file."""
+    import cooler
+
+    cid = f"zoomfail:{shard['sub']}:{i}"
+    if not ctx.want(cid):
+        return
+    b = int([1, 10, 1000][int(rng.integers(3))])
+    bt = [["chr1", gen.fixed_edges(int(rng.integers(5, 20)) * b, b)], ["chr2", gen.fixed_edges(int(rng.integers(3, 9)) * b, b)]]
+    n = gen.bt_nbins(bt)
+    P = gen.gen_pixels(rng, n, True, "sparse70") or {(0, 1): 2}
+    d = ctx.newdir()
+    base = os.path.join(d, "base.cool")
+    make_cooler(base, bt, P)
+    out = os.path.join(d, "out.mcool")
+    via_cli = bool(i % 2)
+    with ctx.case(cid, {"producer": "zoomify", "fault": "requested value column missing from the base", "cli": via_cli}) as c:
+        c.feature("producer:zoomify:missing-column")
+        raised = None
+        try:
+            if via_cli:
+                from click.testing import CliRunner
+                from cooler.cli import cli
+                r = CliRunner().invoke(cli, ["zoomify", base, "-o", out, "-r", f"{2 * b},{4 * b}", "--field", "count", "--field", "missing"])
+                if r.exit_code != 0:
+                    raised = type(r.exception).__name__
+            else:
+                cooler.zoomify_cooler(base, out, [2 * b, 4 * b], chunksize=10**6, columns=["count", "missing"])
+        except Exception as e:  # noqa
+            raised = type(e).__name__
+        if not c.check(raised is not None, "zoomify-with-missing-column-accepted", "a value column the base does not have was accepted"):
+            return
+        listing = cooler.fileops.list_coolers(out) if os.path.exists(out) and h5py.is_hdf5(out) else []
+        c.check(listing == [], "failed-destination-listed:zoomify:missing-column",
+                f"after the failed zoomify ({raised}) list_coolers(out) = {listing}")
+        rec = os.path.exists(out) and h5py.is_hdf5(out) and cooler.fileops.is_cooler(f"{out}::/resolutions/{b}")
+        c.check(not rec, "failed-destination-recognised:zoomify:missing-column",
+                f"after the failed zoomify ({raised}) {os.path.basename(out)}::/resolutions/{b} is recognised by is_cooler")
+        c.nontrivial("zoomfail", b, n, via_cli)
